@@ -7,7 +7,7 @@ import warnings as _warnings
 
 from . import smt
 from .terms import (And, Or, Not, Implies, Ite, Eq, asV, asB, asI, asS, mkB, mkI, mkS, TRUE, FALSE,
-                    const_term, seq_of_terms)
+                    const_term, seq_of_terms, mseq)
 from .values import (CondList, Val, PyC, PyList, SymObj, SDict, Closure, BM, Exc, OutOfSubset, fresh_name)
 from .exprs import is_exc
 
@@ -33,6 +33,46 @@ class BuiltinMixin:
             if h:
                 self._bm.update(h())
         return self._bm
+
+    def b_chain_from_iterable(self, st, args, kwargs, node):
+        """itertools.chain.from_iterable(LL) over an (eagerly evaluated) list of lists: the concatenation `flat(LL)`, known through
+        two library facts: membership (x is in the result iff it is in one of the parts) and the singleton case (if every part
+        has exactly one member, the result has the parts' length and its j-th member is the member of the j-th part)."""
+        x = args[0]
+        if isinstance(x, PyList):
+            parts = []
+            for it in x.items:
+                lv = self.lift(it)
+                if lv.kind not in ("list", "tuple"):
+                    raise OutOfSubset("chain.from_iterable over a non-list part", node)
+                parts.append(f"(seqof {asV(lv)})")
+            t = "(as seq.empty (Seq V))" if not parts else parts[0] if len(parts) == 1 else "(seq.++ " + " ".join(parts) + ")"
+            return [(st, Val(f"(v_list {t})", kind="list", fresh=TRUE))]
+        ll = self.lift(x)
+        if ll.kind != "list":
+            raise OutOfSubset("chain.from_iterable over a value that is not a list of lists", node)
+        L = f"(lval {asV(ll)})"
+        r = self.fresh_val("flat", kind="list")
+        r.fresh = TRUE
+        R = f"(lval {r.t})"
+        j, q, xv = fresh_name("fj"), fresh_name("fq"), fresh_name("fx")
+        part = lambda i: f"(seqof (seq.nth {L} {i}))"
+        rng = lambda i: f"(and (<= 0 {i}) (< {i} (seq.len {L})))"
+        st.assume(f"(k_list {r.t})")
+        # every part is a list or tuple (obligation), then:
+        self.obl("kind", node, st, f"(forall (({j} Int)) (=> {rng(j)} (or (k_list (seq.nth {L} {j})) (k_tuple (seq.nth {L} {j})))))",
+                 detail="every part passed to chain.from_iterable is a list or tuple")
+        src = self.declare_fun(fresh_name("fpart"), ["V"], "Int")
+        st.assume(f"(forall (({xv} V)) (! (=> (ismem {mseq(R)} {xv}) (and (<= 0 ({src} {xv})) (< ({src} {xv}) (seq.len {L})) (ismem {mseq(part(f'({src} {xv})'))} {xv}))) :pattern ((ismem {mseq(R)} {xv}))))")
+        st.assume(f"(forall (({j} Int) ({xv} V)) (! (=> (and {rng(j)} (ismem {mseq(part(j))} {xv})) (ismem {mseq(R)} {xv})) :pattern ((ismem {mseq(part(j))} {xv}))))")
+        # (the premise "every part has one member" is stated through its Skolem counterexample jc: either part jc is not a
+        # singleton, or the conclusion holds)
+        jc = self.declare(fresh_name("fjc"), "Int")
+        st.assume(f"(or (and {rng(jc)} (not (= (seq.len {part(jc)}) 1))) "
+                  f"(and (= (seq.len {R}) (seq.len {L})) (forall (({q} Int)) (! (=> {rng(q)} (= (seq.nth {R} {q}) (seq.nth {part(q)} 0))) :pattern ((seq.nth {R} {q}))))))")
+        self.trusted_used.add("itertools.chain.from_iterable over a list of lists is their concatenation: x is a member iff it is a member of a part; "
+                              "if every part has one member the result is the list of those members (List.join lemmas)")
+        return [(st, r)]
 
     def b_object_new(self, st, args, kwargs, node):
         """object.__new__(cls): a fresh object of class cls, no attributes of its own yet."""
@@ -568,7 +608,17 @@ class BuiltinMixin:
         t = asV(recv)
         if k in (None, "obj") and name in ("items", "values", "keys", "get") and recv.sort == "V":
             # a dict, or an object of a dict subclass: its mapping
-            self.obl("kind", node, st, f"(or (k_dict {t}) (and (k_obj {t}) (subclass (class_of (oid {t})) T_DICT)))", detail=f"receiver of .{name}() is a mapping")
+            mapping = f"(or (k_dict {t}) (and (k_obj {t}) (subclass (class_of (oid {t})) T_DICT)))"
+            if self.exc_expected(AttributeError):
+                # inside `try: x.values() except AttributeError`: in the closed class table only dicts and dict subclasses have
+                # these methods, so the call raises AttributeError exactly when the receiver is not a mapping
+                paths = self.raising(st, None, [(AttributeError, Not(mapping))], node)
+                self.trusted_used.add("closed world: only dicts and objects of dict subclasses have .items/.values/.keys/.get; on any other value the attribute lookup raises AttributeError")
+                st2 = paths[-1][0]
+                self.trusted_used.add("objects of dict subclasses (_PropertyDict, PatternDict): their mapping is obj_dict(x); dict methods not overridden behave as dict's")
+                as_map = Val(self.as_dict(t), kind="dict", origin=getattr(recv, "origin", None))
+                return paths[:-1] + self.builtin_method(st2, as_map, name, args, kwargs, node)
+            self.obl("kind", node, st, mapping, detail=f"receiver of .{name}() is a mapping")
             t = self.as_dict(t)
             k = "dict"
             self.trusted_used.add("objects of dict subclasses (_PropertyDict, PatternDict): their mapping is obj_dict(x); dict methods not overridden behave as dict's")
